@@ -178,6 +178,10 @@ func runGlob1(m *Model, r *RuleResult) {
 	}
 	for _, v := range gvs {
 		key := shortPkg(v.pkg) + "." + v.name
+		if !m.Prod[v.pkg] && !v.ctl {
+			r.add(Obligation{Key: "var:" + key, Pos: m.Pos(v.pos), Desc: "package-level variable of a test-support package that the library does not import", Verdict: "holds"})
+			continue
+		}
 		if v.name == "_" {
 			r.add(Obligation{Key: "var:" + key + "@" + m.File(v.pos), Pos: m.Pos(v.pos), Desc: "blank package-level variable (compile-time assertion): no storage", Verdict: "holds", Control: v.ctl})
 			continue
